@@ -298,5 +298,20 @@ for SELF in ('$BUint', '$BInt'):
         if want('as_big'):
             w(AS_BIG.replace('@TON@', TO[1:]).replace('@TO@', TO).replace('@SELF@', SELF).lstrip('\n'))
 
+# the other direction: `impl AsPrimitive<$Big<N>> for prim` (Self is a primitive: emitted as a free fn, receiver -> `self__`)
+AS_FROM_PRIM = r'''
+//! fn impl(AsPrimitive<@BIG@<N>>for@T@)::as_ [ext_trait=AsPrimitive_@BIGN@_@T@]
+pub fn AsPrimitive_@BIGN@_@T@__as_<const N: usize>(self__: @T@) -> /*@{*/(r: /*}@*/@BIG@<N>/*@{*/)/*}@*/
+    /*@{*/ requires <@BIG@<N> as CastFrom<@T@>>::cast_req(self__)
+    ensures <@BIG@<N> as CastFrom<@T@>>::cast_post(self__, r) /*}@*/
+{
+    @BIG@::cast_from(self__)
+}
+'''
+for BIG in ('$BUint', '$BInt'):
+    for T in PRIMS + ['char', 'bool']:
+        if want('as_from_' + T):
+            w(AS_FROM_PRIM.replace('@BIGN@', BIG[1:]).replace('@BIG@', BIG).replace('@T@', T).lstrip('\n'))
+
 root = os.path.dirname(os.path.dirname(os.path.abspath(__file__)))
 open(os.path.join(root, 'units', 'numtraits_conv4.vrs'), 'w').write(''.join(OUT))
